@@ -56,7 +56,14 @@ func newStats() *Stats {
 		Relax: map[string]int{}, EnumPairs: map[string]bool{}, Porcupine: map[string]int{}}
 }
 
+type HookSite struct {
+	Block  int
+	Method string
+	Phase  string
+}
+
 type RunResult struct {
+	HookSites  []HookSite
 	Violations []Violation
 	Stats      *Stats
 	TraceHash  string
@@ -241,8 +248,8 @@ func (e *execState) buildMsg(m *Msg) sdk.Msg {
 	panic("unknown msg kind " + m.Kind)
 }
 
-func (e *execState) applyOpImpl(n *Node, op *Op) error {
-	return n.ApplyPre(func(ctx sdk.Context) error {
+func (e *execState) applyOpImpl(n *Node, idx int, op *Op) error {
+	return n.ApplyPre(idx, func(ctx sdk.Context) error {
 		k := n.App.FundraisingKeeper
 		switch op.Kind {
 		case OAddAllowed:
@@ -522,7 +529,7 @@ func (e *execState) runBlock(bi int, blk *Block, prev *Snap) (*blockObs, bool) {
 		node.ResetRec()
 		var perr []error
 		for i := range blk.Pre {
-			perr = append(perr, e.applyOpImpl(node, &blk.Pre[i]))
+			perr = append(perr, e.applyOpImpl(node, i, &blk.Pre[i]))
 		}
 		return node.Finalize(blk.TimeNs, txBytes, oeMode), perr
 	}
@@ -660,7 +667,31 @@ func (e *execState) runBlock(bi int, blk *Block, prev *Snap) (*blockObs, bool) {
 	bo.Txs = obs
 	bo.BeginFx = mFx
 
+	// a listener failure injected into a keeper-API operation: the operation must fail
+	injectedPre := -1
+	for _, h := range br.Hooks {
+		if h.Injected && h.Phase == "pre" {
+			fmt.Sscanf(h.TxHash, "pre:%d", &injectedPre)
+		}
+	}
+	if injectedPre >= 0 && injectedPre < len(blk.Pre) {
+		res.Stats.Faults[FHookFail]++
+		m := bo.MPrev.Clone()
+		m.BlockIdx = bi
+		pre2, fx2, txr2 := m.StepBlockF(blk, nil, -1, injectedPre)
+		e.model = m
+		mPre, mFx = pre2, fx2
+		for i := range obs {
+			obs[i].Model = txr2[i].Res
+		}
+		bo.BeginFx = mFx
+		if preErrs[injectedPre] == nil {
+			res.addV("C17", "hook.veto.keeper_op", blk.Pre[injectedPre].Kind, fmt.Sprintf("a listener failed during keeper operation %d (%s) but the operation succeeded", injectedPre, blk.Pre[injectedPre].Kind), bi, -1)
+		}
+	}
+
 	// a fault that fired inside a tx: the model must skip that tx's effects
+	forcedDiverge := false
 	injectedTx := -1
 	for i := range obs {
 		if obs[i].Injected {
@@ -695,6 +726,7 @@ func (e *execState) runBlock(bi int, blk *Block, prev *Snap) (*blockObs, bool) {
 				res.addV("C18", "fault.tx.atomic", blk.Txs[forced].Msg.Kind, "listener failure did not reject the tx", bi, forced)
 			}
 			res.Stats.Diverged = true
+			forcedDiverge = true
 		}
 	}
 	_ = mPre
@@ -757,7 +789,9 @@ func (e *execState) runBlock(bi int, blk *Block, prev *Snap) (*blockObs, bool) {
 	}
 	diverged := e.refine(bo)
 	e.directOracles(bo)
-	e.checkHooksBlock(bo, br, mFx, false)
+	if !forcedDiverge {
+		e.checkHooksBlock(bo, br, mFx, false)
+	}
 	if e.opt.Trace {
 		e.checkWriteSets(bo)
 	}
@@ -770,7 +804,7 @@ func (e *execState) runBlock(bi int, blk *Block, prev *Snap) (*blockObs, bool) {
 		e.checkQueries(bo)
 	}
 	e.noteState(bo)
-	if diverged {
+	if diverged || forcedDiverge {
 		res.Stats.Diverged = true
 		return bo, false
 	}
